@@ -32,7 +32,7 @@ mod proofs {
     use std::time::{verif_now, verif_set_now, Duration, Instant};
     use zk_circuits_common::circuit::{C, D, F};
 
-    const NL: usize = 2; // leaves (= nullifiers) per pooled proof
+    const NL: usize = 1; // leaves (= nullifiers) per pooled proof
     const PI_LEN: usize = 21 * NL + 8;
     const WINDOW: u64 = 10;
     const MAXP: usize = 3; // model capacity (>= max_proofs)
@@ -40,14 +40,7 @@ mod proofs {
     type Proof = ProofWithPublicInputs<F, C, D>;
 
     fn digest(v: u64) -> BytesDigest {
-        let mut b = [0u8; 32];
-        let le = v.to_le_bytes();
-        let mut j = 0;
-        while j < 8 {
-            b[j] = le[j];
-            j += 1;
-        }
-        BytesDigest::try_from(b).unwrap()
+        BytesDigest(v)
     }
     fn key_of(sel: u8) -> BatchKey {
         BatchKey { block_hash: digest(sel as u64), asset_id: 0, volume_fee_bps: 0 }
@@ -67,7 +60,11 @@ mod proofs {
         let key: u8 = kani::any();
         kani::assume(key <= 2);
         let n: [u8; NL] = kani::any();
-        kani::assume(n[0] >= 1 && n[0] <= 4 && n[1] >= 1 && n[1] <= 4);
+        let mut q = 0;
+        while q < NL {
+            kani::assume(n[q] >= 1 && n[q] <= 4);
+            q += 1;
+        }
         Sub { key, n, vol: kani::any(), valid: kani::any(), short: kani::any(), id }
     }
     fn proof_of(s: &Sub) -> Proof {
@@ -77,8 +74,11 @@ mod proofs {
         data[aggregated_output::exit_slots_start()] = F(s.vol[0]);
         data[aggregated_output::exit_slots_start() + aggregated_output::EXIT_SLOT_LEN] = F(s.vol[1]);
         let ns = aggregated_output::nullifiers_start(NL);
-        data[ns] = F(s.n[0] as u64);
-        data[ns + 4] = F(s.n[1] as u64);
+        let mut q = 0;
+        while q < NL {
+            data[ns + 4 * q] = F(s.n[q] as u64);
+            q += 1;
+        }
         Proof { public_inputs: Pis { data, len: if s.short { PI_LEN - 1 } else { PI_LEN } }, valid: s.valid, id: s.id, _c: core::marker::PhantomData }
     }
     fn canon(v: u64) -> u64 {
@@ -138,7 +138,7 @@ mod proofs {
         fn holder(&self, nv: u8) -> Option<u8> {
             let mut i = 0;
             while i < MAXP {
-                if self.e[i].live && (self.e[i].n[0] == nv || self.e[i].n[1] == nv) {
+                if self.e[i].live && (self.e[i].n[0] == nv || self.e[i].n[NL - 1] == nv) {
                     return Some(self.e[i].key);
                 }
                 i += 1;
@@ -171,7 +171,7 @@ mod proofs {
             if self.count_key(s.key) == 0 && self.buckets() >= self.max_buckets {
                 return None;
             }
-            if self.holder(s.n[0]).is_some() || self.holder(s.n[1]).is_some() {
+            if self.holder(s.n[0]).is_some() || self.holder(s.n[NL - 1]).is_some() {
                 return None;
             }
             let mut i = 0;
@@ -247,7 +247,7 @@ mod proofs {
                 while i < cnt {
                     let e = nth_of_key(m, k, i).unwrap();
                     let (nulls, vol, at) = p.verif_proof_meta(&key_of(k), i).unwrap();
-                    assert!(nulls.len() == NL && nulls[0] == digest(e.n[0] as u64) && nulls[1] == digest(e.n[1] as u64));
+                    assert!(nulls.len() == NL && nulls[0] == digest(e.n[0] as u64) && nulls[NL - 1] == digest(e.n[NL - 1] as u64));
                     assert!(vol == e.volume && at == Instant(e.at));
                     assert!(p.verif_proof(&key_of(k), i).unwrap().id == e.id);
                     i += 1;
@@ -285,9 +285,7 @@ mod proofs {
     }
 
     /// one symbolic operation on both the real pool and the model, then full state comparison
-    fn step(p: &mut ProofPool, m: &mut Model, id: u32) {
-        let op: u8 = kani::any();
-        kani::assume(op <= 5);
+    fn step(p: &mut ProofPool, m: &mut Model, id: u32, op: u8) {
         match op {
             0 => {
                 // clock advance
@@ -322,7 +320,7 @@ mod proofs {
                 let mut i = 0;
                 while i < MAXP {
                     let e = m.e[i];
-                    if e.live && (e.n[0] == a || e.n[0] == b || e.n[1] == a || e.n[1] == b) {
+                    if e.live && (e.n[0] == a || e.n[0] == b || e.n[NL - 1] == a || e.n[NL - 1] == b) {
                         m.e[i].live = false;
                         exp += 1;
                     }
@@ -395,12 +393,13 @@ mod proofs {
         check_state(p, m);
     }
 
-    fn history(steps: u32, max_proofs: usize, max_buckets: usize, max_verifies: usize, batch: usize) {
+    /// ops: 0 clock advance, 1 push, 2 evict_settled, 3 evict_older_than, 4 snapshot_batch, 5 remove_bucket
+    fn history(ops: &[u8], max_proofs: usize, max_buckets: usize, max_verifies: usize, batch: usize) {
         let (mut p, mut m) = new_pool(max_proofs, max_buckets, max_verifies, batch);
         check_state(&p, &m);
         let mut i = 0;
-        while i < steps {
-            step(&mut p, &mut m, 100 + i);
+        while i < ops.len() {
+            step(&mut p, &mut m, 100 + i as u32, ops[i]);
             i += 1;
         }
         // bucket statistics agree with the pooled contents (C20 last clause)
@@ -434,21 +433,56 @@ mod proofs {
         core::mem::forget(p);
     }
 
+    macro_rules! template {
+        ($name:ident, [$($op:expr),*], $mp:expr, $mb:expr, $mv:expr, $bs:expr) => {
+            #[kani::proof]
+            #[kani::unwind(10)]
+            fn $name() {
+                history(&[$($op),*], $mp, $mb, $mv, $bs);
+            }
+        };
+    }
+    template!(t_push_push_settle, [1, 1, 2], 2, 2, 2, 2);
+    template!(t_push, [1], 2, 1, 1, 1);
+
     #[kani::proof]
     #[kani::unwind(10)]
-    fn pool_histories_len2_tight_limits() {
-        history(2, 2, 1, 1, 1);
+    fn probe_vec_of_big() {
+        let s = any_sub(1);
+        let mut v: Vec<(Proof, Vec<BytesDigest>, u64)> = Vec::new();
+        v.push((proof_of(&s), Vec::new(), 3));
+        assert!(v.len() == 1);
+        core::mem::forget(v);
     }
 
     #[kani::proof]
     #[kani::unwind(10)]
-    fn pool_histories_len3_limits_2_2_2() {
-        history(3, 2, 2, 2, 2);
+    fn probe_new_only() {
+        let (p, _m) = new_pool(2, 1, 1, 1);
+        assert!(p.len() == 0);
+        core::mem::forget(p);
     }
 
     #[kani::proof]
     #[kani::unwind(10)]
-    fn pool_histories_len4_limits_3_2_2() {
-        history(4, 3, 2, 2, 2);
+    fn probe_push_short_pi() {
+        let (mut p, _m) = new_pool(2, 1, 1, 1);
+        let mut s = any_sub(1);
+        s.short = true;
+        let r = p.push(proof_of(&s));
+        assert!(r.is_err());
+        core::mem::forget(p);
+    }
+
+    #[kani::proof]
+    #[kani::unwind(10)]
+    fn probe_push_only() {
+        let (mut p, mut m) = new_pool(2, 1, 1, 1);
+        let mut s = any_sub(1);
+        s.short = false;
+        let r = p.push(proof_of(&s));
+        let exp = m.push(&s, verif_now());
+        assert!(r.is_ok() == exp.is_some());
+        core::mem::forget(p);
     }
 }
